@@ -9,6 +9,7 @@ import os, sys, json, time
 
 VERIF = os.path.dirname(os.path.dirname(os.path.dirname(os.path.abspath(__file__))))
 EVDIR = os.environ.get('BT_EVIDENCE') or os.path.join(VERIF, 'evidence')
+GATE_TOKENS = 30   # see DESIGN.md 2.8: neutral refactorings measured >= 26 changed tokens in scope, single seeded defects mostly <= 30
 
 
 class Check:
@@ -17,6 +18,9 @@ class Check:
         self.tier = tier
         self.level = level
         self.t0 = time.time()
+        self.exact_rules = set()
+        self.facts = None
+        self._dist = None
         self.instances = []   # dicts: rule, site, function, construct, ok, detail, variants
         self.notes = []
         self.broken = []
@@ -36,7 +40,7 @@ class Check:
     def analysed(self, fn):
         self.functions_analysed.add((fn.q, fn.kind, fn.targs[:60] if fn.kind == 'inst' else ''))
 
-    def instance(self, rid, fn, construct, ok, detail='', node=None, key=None):
+    def instance(self, rid, fn, construct, ok, detail='', node=None, key=None, exact=None):
         """one evaluated obligation. `key` identifies the construct independent of line numbers."""
         assert rid in self.rules, rid
         if fn is not None:
@@ -52,6 +56,7 @@ class Check:
             'key': key or construct,
             'ok': bool(ok),
             'detail': detail,
+            'exact': bool(exact if exact is not None else rid in self.exact_rules),
         }
         if fn is not None and fn.kind == 'inst':
             rec['instantiation'] = fn.targs[:200]
@@ -62,11 +67,45 @@ class Check:
         """an obligation not tied to a Function object (witness, table cell, class fact)"""
         assert rid in self.rules, rid
         self.instances.append({'rule': rid, 'function': where, 'kind': '', 'file': where, 'line': 0,
-                               'construct': construct, 'key': key or construct, 'ok': bool(ok), 'detail': detail})
+                               'construct': construct, 'key': key or construct, 'ok': bool(ok), 'detail': detail, 'exact': True})
         return ok
 
     def note(self, text):
         self.notes.append(text)
+
+    def exact(self, *rids):
+        """rules whose verdict is computed from the meaning of the code (compiler-evaluated witnesses, folded tables, symbolic terms, linear
+        forms, typestate over all paths) and therefore does not depend on the code keeping a particular shape: never gated by the golden structure"""
+        self.exact_rules.update(rids)
+
+    def scope_distance(self):
+        """how far the code in this property's scope moved from the structure the rules were confirmed on: (total changed tokens, [(function, changed)], unknown functions)"""
+        if self._dist is None:
+            from . import golden
+            per = {}
+            unknown = []
+            seen_variants = set()
+            fns = list(self.facts.functions if self.facts is not None else [])
+            primary = {golden.key(fn) for fn in fns if fn.kind in ('pattern', 'plain')}
+            for fn in fns:
+                if '/tests/' in (fn.file or '') or '/witness/' in (fn.file or ''):
+                    continue
+                if fn.kind not in ('pattern', 'plain') and golden.key(fn) in primary:
+                    continue
+                d = golden.distance(fn)
+                k = golden.key(fn)
+                sig = (k, tuple(golden.tokens(fn)))
+                if sig in seen_variants:
+                    continue                      # the same definition seen through another unit
+                seen_variants.add(sig)
+                if d is None:
+                    if k not in unknown:
+                        unknown.append(k)
+                else:
+                    per[k] = per.get(k, 0) + d[0]  # overloads / specialisations share a key: each is compared with its closest confirmed variant
+            changed = sorted(((k.split('|')[0], v) for k, v in per.items() if v), key=lambda x: -x[1])
+            self._dist = (sum(v for k, v in changed), changed, unknown)
+        return self._dist
 
     def broke(self, text):
         self.broken.append(text)
@@ -122,6 +161,20 @@ class Check:
                 known_hits.append((k, lst))
             else:
                 violations.append((site, lst))
+        # a shape rule that fails on code which was restructured since the rule's idioms were confirmed is `idiom not recognised`, not a violation
+        if violations and any(not lst[0].get('exact') for site, lst in violations):
+            total, changed, unknown = self.scope_distance()
+            if total > GATE_TOKENS:
+                kept = []
+                for site, lst in violations:
+                    if lst[0].get('exact'):
+                        kept.append((site, lst))
+                    else:
+                        i = lst[0]
+                        self.broke('rule %s no longer matches %s (%s:%d: %s) and the code in this property\'s scope was restructured since the rule\'s idioms were confirmed '
+                                   '(%d AST tokens changed, most in %s): idiom not recognised - no verdict from this rule' % (
+                                       i['rule'], i['function'] or i['file'], i['file'], i['line'], i['construct'][:80], total, ', '.join('%s (%d)' % (k.split('::')[-1], v) for k, v in changed[:3])))
+                violations = kept
         wall = time.time() - self.t0
         distinct = {(i['rule'], i['function'], i['key']) for i in self.instances}
         samples = []
